@@ -233,8 +233,12 @@ def pre_case(r, tier):
     if u < 0.8:
         n = r.choice([0, 1, 2, 2, 3, 3, 4, 5, 6, 7, 8, 9, 10, 11, 12])
         shape = [n]
-    elif u < 0.88:
+    elif u < 0.876:
         shape = [r.choice([13, 17, 32, 64, 100, 300])]
+    elif u < 0.88:
+        # long signals straddling typical block sizes (a block-wise / chunked rewrite must still be the
+        # recurrence on the ORIGINAL samples at every block boundary)
+        shape = [r.choice([4097, 8194, 16385, 16386, 16400, 32770, 40001])]
     elif u < 0.96:
         shape = [r.randint(0, 4), r.randint(0, 5)]
     else:
